@@ -180,12 +180,12 @@ def run(prop, tier):
     neg = negative_control(recs, tag, open_devs)
 
     mine = [j for j in judged if j["prop"] == prop]
-    dev_to_k = {k["deviation"]: k for k in open_k if k.get("deviation")}
+    dev_to_k = {k["deviation"]: k for k in open_k if k.get("deviation") and k["property"] == prop}
     violations, known_hits = [], []
     for j in mine:
         rec = j["_rec"]
         case = cases[rec["id"]]
-        if j["class"] in dev_to_k and dev_to_k[j["class"]]["property"] == prop:
+        if j["class"] in dev_to_k:
             k = dev_to_k[j["class"]]
             known_hits.append((k["id"], k["what"]))
             continue
